@@ -189,7 +189,7 @@ def r_reset(ctx):
 # R-RESET, continued: state that survives the construction of a new PEP without being a class attribute or a module-level object --
 # the table of a memoising decorator and a default argument evaluated once
 # ---------------------------------------------------------------------------------------------------
-MEMO_DECORATORS = {"lru_cache", "cache"}
+MEMO_DECORATORS = {"lru_cache", "cache", "cached_property"}
 
 
 def _memo_name(node, module=None):
@@ -223,7 +223,7 @@ def _attrs_written_after_construction(repo):
     return out
 
 
-def r_process_memo(ctx):
+def r_process_memo(ctx, rule="R-RESET", memo_only=False):
     """A table kept by functools.lru_cache / functools.cache lives as long as the process and is not touched by the reset routine: the memoised function
     must be a function of its arguments taken as values.  A mutable default argument is created once per process: it must not be written or handed out."""
     repo = ctx.repo
@@ -268,7 +268,7 @@ def r_process_memo(ctx):
         line = getattr(where, "lineno", 0)
         key = "%s::%s" % (m.rel, getattr(g, "name", "<callable>") if g is not None else "<unresolved callable>")
         if g is None:
-            ctx.ob("R-RESET", key + "::memo table", False, "`%s` (line %d) keeps a process-wide table of results of a callable that the analysis cannot "
+            ctx.ob(rule, key + "::memo table", False, "`%s` (line %d) keeps a process-wide table of results of a callable that the analysis cannot "
                    "resolve; PEP's reset routine does not clear it" % (src(where)[:60], line), "%s:%d" % (m.rel, line))
             continue
         bad = []
@@ -292,13 +292,15 @@ def r_process_memo(ctx):
                         continue
                     bad.append((f, w.node, "writes `%s` (a call answered from the table skips the write)" % w.path))
         ok = not bad
-        ctx.ob("R-RESET", key + "::memo table", ok,
+        ctx.ob(rule, key + "::memo table", ok,
                "memoised by `%s`; a function of its arguments only (reads no resettable state, no attribute written after construction, writes nothing)" % nm if ok else
-               "memoised by `%s`: the table outlives the model (it is not cleared by PEP's reset routine) but the function %s [%s line %d]: a later model, "
+               "memoised by `%s`: the stored results are cleared neither by PEP's reset routine nor by a new solve, but the function %s [%s line %d]: a later model, "
                "or a later solve, is answered with what an earlier one computed"
                % (nm, bad[0][2], qualname(bad[0][0]) if isinstance(bad[0][0], ast.FunctionDef) else "lambda", getattr(bad[0][1], "lineno", 0)),
                "%s:%d" % (m.rel, line))
     ctx.count("memoising decorators", len(memo))
+    if memo_only:
+        return
     # attributes of module-level functions used as storage (`helper._cache[key] = value`): a table with the life time of the process
     for fn in nested:
         if not isinstance(fn, ast.FunctionDef):
